@@ -243,6 +243,18 @@ def run():
         steps = engine.random_program(r, 6, KINDS_NOFAULT)
         items.append(dict(steps=steps, variants=engine.choose_variants(r, steps),
                           mode=r.choice(['results', 'process', 'datastream'])))
+    # every program of the bounded model (<= 2 steps quick / <= 3 thorough, all non-fault kinds) is executed as well
+    wd = tlc.workdir('c01p')
+    cfg = tlc.write_cfg(os.path.join(wd, 'progs.cfg'), constants={
+        'MaxLen': 2 if t == 'quick' else 3, 'Sample': 2, 'Ahead': 2, 'SwallowCast': 'FALSE', 'SrcRows': '<- SrcRowsSmall',
+        'Kinds': '{' + ', '.join('"%s"' % k for k in KINDS_NOFAULT) + '}'}, constraints=['Export'])
+    pres = tlc.run_tlc('EnginePrograms', cfg, workers=1, allow_violation=False, timeout=3000)
+    rep.add_tlc(pres, 'EnginePrograms: the program universe exported for replay')
+    modes = ['results', 'process', 'datastream']
+    for n, c in enumerate(pres.cases):
+        steps = [dict(kind=x['kind'], **({'rows': list(x['rows'])} if 'rows' in x else {})) for x in c['steps']]
+        items.append(dict(steps=steps, variants=engine.choose_variants(r, steps), mode=modes[n % 3]))
+    rep.notes['model_programs_replayed'] = len(pres.cases)
     engine.check_traces(rep, items, 'C01')
     # (b) differential
     progs = programs(r, t)
